@@ -15,9 +15,11 @@ theorem visible_ne_plain_of_ne_lib (d : Decision) (libq : Bool) (h : d ≠ .lib)
 theorem quoteScalar_ne_lib (lx : Lex) (s : Bytes) (h : needsSingleQuoting s = true ∨ shouldQuote lx s = true) :
     quoteScalar lx s ≠ .lib := by
   unfold quoteScalar
-  rcases h with h | h
-  · simp [h]
-  · by_cases h1 : needsSingleQuoting s = true <;> simp [h1, h]
+  split
+  · simp
+  · have : (shouldQuote lx s || needsSingleQuoting s) = true := by
+      rcases h with h | h <;> simp [h]
+    simp [this]
 
 theorem quoted_of (lx : Lex) (s : Bytes) (h : needsSingleQuoting s = true ∨ shouldQuote lx s = true) :
     Quoted lx s := by
@@ -105,11 +107,13 @@ theorem lib_of_plain (d : Decision) (libq : Bool) (h : d.visible libq = .plain) 
 theorem quoteScalar_lib (lx : Lex) (s : Bytes) (h : quoteScalar lx s = .lib) :
     needsSingleQuoting s = false ∧ shouldQuote lx s = false := by
   unfold quoteScalar at h
-  by_cases h1 : needsSingleQuoting s = true
-  · simp [h1] at h
-  · by_cases h2 : shouldQuote lx s = true
-    · simp [h1, h2] at h
-    · simp at h1 h2; exact ⟨h1, h2⟩
+  split at h
+  · simp at h
+  · split at h
+    · simp at h
+    · rename_i h2
+      simp only [Bool.or_eq_true, not_or, Bool.not_eq_true] at h2
+      exact ⟨h2.2, h2.1⟩
 
 theorem valueDecision_lib (lx : Lex) (s : Bytes) (multi : Bool) (h : valueDecision lx s multi = .lib) :
     quoteScalar lx s = .lib := by
@@ -248,15 +252,15 @@ theorem go_escape_is_yaml_escape (l : Nat) (e : Esc) (h : goEscape l = some e) :
   have hs : (goEscape l).isSome = true := by simp [h]
   rw [escapes_table l (goEscape_lt l hs) hs, h]
 
-/-! ### literal blocks: the two witnesses -/
+/-! ### literal blocks: the two witnesses of the defect repaired by /repo 05f5435 -/
 
-theorem block_lone_newline : blockLiteralSafe [10] = true ∧
+theorem block_lone_newline : blockLiteralSafeOld [10] = true ∧
     parseBlock (emitBlock 2 [10]).1 (emitBlock 2 [10]).2 = [] := by decide
 
-theorem block_blank_then_indented : blockLiteralSafe (b "\n a") = true ∧
+theorem block_blank_then_indented : blockLiteralSafeOld (b "\n a") = true ∧
     parseBlock (emitBlock 2 (b "\n a")).1 (emitBlock 2 (b "\n a")).2 = b "\na" := by decide
 
-theorem blockFixed_rejects : blockLiteralSafeFixed [10] = false ∧ blockLiteralSafeFixed (b "\n a") = false ∧
-    blockLiteralSafeFixed (b "\n\n") = false := by decide
+theorem block_rejects_witnesses : blockLiteralSafe [10] = false ∧ blockLiteralSafe (b "\n a") = false ∧
+    blockLiteralSafe (b "\n\n") = false := by decide
 
 end CueVerif.Yaml
